@@ -64,6 +64,18 @@ theorem c06_facts_memo_only :
     Glom.Generated.handlerStoredOutsideMemo = [] ∧ Glom.Generated.memoTouchedOutsideRegistry = [] := by
   decide
 
+/-- **Facts obligation: T arithmetic uses Python's binary operators.**  Every arithmetic branch of
+    `_t_eval` is the single statement `cur = cur <op> arg` (`cur = <op>cur`): the *binary* operator,
+    which builds a new object for every builtin container — what `aBin` of the heap model does
+    (`c06_tarith_frame`).  An augmented assignment (`cur += arg`), a dispatch through
+    `operator.iadd` / `ior` …, or a dispatch table the extractor cannot read fails here. -/
+theorem c06_facts_arith_binary :
+    Glom.Generated.tArithForms =
+      [("+", "cur = cur + arg"), ("-", "cur = cur - arg"), ("*", "cur = cur * arg"), ("#", "cur = cur // arg"),
+       ("/", "cur = cur / arg"), ("%", "cur = cur % arg"), (":", "cur = cur ** arg"), ("&", "cur = cur & arg"),
+       ("|", "cur = cur | arg"), ("^", "cur = cur ^ arg"), ("~", "cur = ~cur"), ("_", "cur = -cur")] := by
+  decide
+
 /-- **The path cache never changes an answer**: under the invariant, `Path.from_text` returns the
     fresh parse — on a hit, on a miss, and on the overflow branch — and re-establishes the
     invariant; the cache holds at most `_MAX_CACHE + 1` entries per PATH_STAR value. -/
@@ -168,17 +180,94 @@ theorem c06_lookup_register_lookup (parse : Bool → String → P) (compute : R 
   rw [(c06_history parse compute maxCache _ w hinv).1]
   simp [refHistory, runPure, lookup1, setAt]
 
-/-- **Registering a base type wins over the default for its subclasses** (concrete registry:
-    types with their MRO): when `X` is in the MRO of `sub` and no type before `X` in that MRO has a
-    handler for `op`, then after `register(X, op=h)` the uncached lookup for an object of exact
-    type `sub` is `h`. -/
+/-- **A registration wins for every type whose nearest registered candidate it is** (concrete
+    registry: types with their MRO and their virtual bases).  `X` is among the candidates of a
+    lookup of `op` for exact type `sub` — in its MRO, or an ABC it is a virtual subclass of — and
+    no candidate before `X` has a handler for `op`; the registration is not `exact=True`, or `X`
+    is `sub` itself.  Then after `register(X, op=h)` the uncached lookup is `h`. -/
+theorem c06_register_candidate_wins (r : TReg) (X sub op : String) (kw : List (String × Tag)) (h : Tag)
+    (exact : Bool) (hex : exact = false ∨ X = sub)
+    (hk : assocGet kw op = some h) (hx : X ∈ r.candidates sub op)
+    (hbefore : ∀ c, c ∈ (r.candidates sub op).takeWhile (· != X) → assocGet r.entries (c, op) = none) :
+    (r.register X kw exact).compute (sub, op) = some h := by
+  have hf := firstRegistered_register r.entries r.fuzzy X kw op h hk sub exact hex (r.candidates sub op) hx hbefore
+  show (match firstRegistered (handlerVia (newEntries r.entries X kw ++ r.entries)
+      (if exact then r.fuzzy else (regOps kw).map (fun op => (X, op)) ++ r.fuzzy) sub op) (r.candidates sub op) with
+    | some h => some h
+    | none => if r.nodefault.contains (sub, op) then none else some "default") = some h
+  rw [hf]
+
+/-- **Registering a base type wins over the default for its subclasses**: when `X` is in the MRO
+    of `sub` and no type before `X` in that MRO has a handler for `op`, then after
+    `register(X, op=h)` the uncached lookup for an object of exact type `sub` is `h`. -/
 theorem c06_register_base_wins (r : TReg) (X sub op : String) (kw : List (String × Tag)) (h : Tag)
     (hk : assocGet kw op = some h) (hx : X ∈ r.mroOf sub)
     (hbefore : ∀ c, c ∈ (r.mroOf sub).takeWhile (· != X) → assocGet r.entries (c, op) = none) :
     (r.register X kw).compute (sub, op) = some h := by
-  have hf := firstRegistered_register r.entries X kw op h hk (r.mroOf sub) hx hbefore
-  simp only [TReg.compute, TReg.register, TReg.mroOf] at hf ⊢
-  rw [hf]
+  apply c06_register_candidate_wins r X sub op kw h false (Or.inl rfl) hk
+  · exact List.mem_append_left _ hx
+  · intro c hc
+    apply hbefore c
+    unfold TReg.candidates at hc
+    rwa [takeWhile_append_of_mem _ _ _ X hx (by simp)] at hc
+
+/-- **Registering an ABC wins for its virtual subclasses**: `sub` is a virtual subclass of `A`
+    (`A.register(sub)`, `A.__subclasshook__`, a `collections.abc` class: `A` is not in the MRO of
+    `sub`), the lookup of `op` falls back to virtual bases (`virtOf`), and neither a type of the
+    MRO of `sub` nor an earlier virtual base has a handler for `op`.  Then after
+    `register(A, op=h)` the uncached lookup for an instance of `sub` is `h`. -/
+theorem c06_register_abc_wins (r : TReg) (A sub op : String) (kw : List (String × Tag)) (h : Tag)
+    (hk : assocGet kw op = some h) (hx : A ∈ r.virtOf sub op)
+    (hmro : ∀ c, c ∈ r.mroOf sub → assocGet r.entries (c, op) = none)
+    (hvirt : ∀ c, c ∈ (r.virtOf sub op).takeWhile (· != A) → assocGet r.entries (c, op) = none) :
+    (r.register A kw).compute (sub, op) = some h := by
+  apply c06_register_candidate_wins r A sub op kw h false (Or.inl rfl) hk
+  · exact List.mem_append_right _ hx
+  · intro c hc
+    unfold TReg.candidates at hc
+    rcases List.mem_append.mp ((List.takeWhile_sublist _).subset hc) with hm | hv
+    · exact hmro c hm
+    · by_cases hA : A ∈ r.mroOf sub
+      · rw [takeWhile_append_of_mem _ _ _ A hA (by simp)] at hc
+        exact hmro c ((List.takeWhile_sublist _).subset hc)
+      · have hall : ∀ x, x ∈ r.mroOf sub → (x != A) = true := by
+          intro x hxm
+          simp only [bne_iff_ne, ne_eq]
+          intro hh; subst hh; exact hA hxm
+        rw [List.takeWhile_append_of_pos hall] at hc
+        rcases List.mem_append.mp hc with hm | hv'
+        · exact hmro c hm
+        · exact hvirt c hv'
+
+/-- **`exact=True` registers the type itself**: after `register(X, op=h, exact=True)` the uncached
+    lookup for an object of exact type `X` is `h` (`type_map[type(obj)]` comes first). -/
+theorem c06_register_exact_self (r : TReg) (X op : String) (kw : List (String × Tag)) (h : Tag)
+    (hk : assocGet kw op = some h) (hhead : (r.mroOf X).head? = some X) :
+    (r.register X kw true).compute (X, op) = some h := by
+  have hm : ∃ tl, r.mroOf X = X :: tl := by
+    cases hl : r.mroOf X with
+    | nil => rw [hl] at hhead; cases hhead
+    | cons a tl => rw [hl] at hhead; simp at hhead; subst hhead; exact ⟨tl, rfl⟩
+  obtain ⟨tl, hl⟩ := hm
+  apply c06_register_candidate_wins r X X op kw h true (Or.inr rfl) hk
+  · unfold TReg.candidates; rw [hl]; simp
+  · intro c hc
+    unfold TReg.candidates at hc
+    rw [hl] at hc
+    simp at hc
+
+/-- **… and nothing else**: an `exact=True` registration of `X` (not in the type tree of `op`) does
+    not change the lookup of `op` for any other type — its subclasses included. -/
+theorem c06_register_exact_not_inherited (r : TReg) (X sub op : String) (kw : List (String × Tag))
+    (hne : sub ≠ X) (hnf : r.fuzzy.contains (X, op) = false) :
+    (r.register X kw true).compute (sub, op) = r.compute (sub, op) := by
+  show (match firstRegistered (handlerVia (newEntries r.entries X kw ++ r.entries) r.fuzzy sub op)
+      (r.candidates sub op) with
+    | some h => some h
+    | none => if r.nodefault.contains (sub, op) then none else some "default") = r.compute (sub, op)
+  rw [firstRegistered_congr _ (handlerVia r.entries r.fuzzy sub op) _
+    (fun c _ => handlerVia_register_exact_other r.entries r.fuzzy X sub op kw hne hnf c)]
+  rfl
 
 /-- … and in every history: a lookup for `sub`, then `register(X, op=h)` for a base `X` of `sub`,
     then the same lookup — the second one answers `h`, although the first one memoised the old
@@ -193,6 +282,33 @@ theorem c06_register_base_history (parse : Bool → String → P) (maxCache : Na
       [some ((w.reg rg).compute (sub, op)), some (some h)] := by
   rw [c06_lookup_register_lookup parse TReg.compute maxCache rg (fun r => r.register X kw) sub op w hinv,
     c06_register_base_wins (w.reg rg) X sub op kw h hk hx hbefore]
+
+/-- the history of the seeded class "the memo survives an `exact=True` registration": a lookup for
+    `X` (memoised under `(X, op)`), `register(X, op=h, exact=True)`, the same lookup — answers `h`. -/
+theorem c06_register_exact_history (parse : Bool → String → P) (maxCache : Nat) (rg : Nat)
+    (X op : String) (kw : List (String × Tag)) (h : Tag) (w : World P Tag TReg)
+    (hinv : WorldInv parse TReg.compute w)
+    (hk : assocGet kw op = some h) (hhead : ((w.reg rg).mroOf X).head? = some X) :
+    (runHistory parse TReg.compute maxCache w
+        [.call (lookup1 rg X op) 2, .register rg (fun r => r.register X kw true), .call (lookup1 rg X op) 2]).1 =
+      [some ((w.reg rg).compute (X, op)), some (some h)] := by
+  rw [c06_lookup_register_lookup parse TReg.compute maxCache rg (fun r => r.register X kw true) X op w hinv,
+    c06_register_exact_self (w.reg rg) X op kw h hk hhead]
+
+/-- the history of the seeded class "the memo keeps entries of types that are only *virtual*
+    subclasses of the registered type": a lookup for `sub`, `register(A, op=h)` for an ABC `A` of
+    which `sub` is a virtual subclass, the same lookup — answers `h`. -/
+theorem c06_register_abc_history (parse : Bool → String → P) (maxCache : Nat) (rg : Nat)
+    (A sub op : String) (kw : List (String × Tag)) (h : Tag) (w : World P Tag TReg)
+    (hinv : WorldInv parse TReg.compute w)
+    (hk : assocGet kw op = some h) (hx : A ∈ (w.reg rg).virtOf sub op)
+    (hmro : ∀ c, c ∈ (w.reg rg).mroOf sub → assocGet (w.reg rg).entries (c, op) = none)
+    (hvirt : ∀ c, c ∈ ((w.reg rg).virtOf sub op).takeWhile (· != A) → assocGet (w.reg rg).entries (c, op) = none) :
+    (runHistory parse TReg.compute maxCache w
+        [.call (lookup1 rg sub op) 2, .register rg (fun r => r.register A kw), .call (lookup1 rg sub op) 2]).1 =
+      [some ((w.reg rg).compute (sub, op)), some (some h)] := by
+  rw [c06_lookup_register_lookup parse TReg.compute maxCache rg (fun r => r.register A kw) sub op w hinv,
+    c06_register_abc_wins (w.reg rg) A sub op kw h hk hx hmro hvirt]
 
 /-- **A wildcard call uses the handlers of the uncached lookup.**  The lookups `_extend_children`
     makes for the items a `*` / `**` traversal visits (`keys`, then `get`, else `iterate`, per item,
@@ -292,6 +408,105 @@ theorem c06_vars_history {V : Type} (h : VHeap V) (base : Nat) (hb : base < h.le
     (evalVars (evalVars h base defaults ops1).1 base defaults ops2).2 = refVars (h.getD base []) defaults ops2 := by
   rw [(c06_vars_frame _ base defaults ops2).1, (c06_vars_frame h base defaults ops1).2 base hb]
 
+/-! ## "inputs untouched" on a heap with object identity (`Model/C06Heap.lean`)
+
+  The full statement of this half of C06 — *every* spec without Assign / Delete / scope assignment
+  into target-owned objects / mutating callable leaves every object that existed before the call
+  unchanged in structure and identity — is proved here for the constructs of the heap model:
+  T expressions made of item steps and every arithmetic operator (`+ - * // / % ** & | ^ ~ -`) over
+  scalars, lists, tuples, bytearrays, sets, frozensets and dicts (as left operand — a container
+  owned by the target — and as right operand: a literal of the spec, rebuilt or passed through, or
+  another T expression reading the target), nested to any depth; literals in argument position
+  (`arg_val`); dict / list / tuple specs in AUTO mode; `Coalesce` with and without default.  It is
+  named `…_partial` nowhere because each theorem below is the full statement *for its construct*;
+  the constructs outside this model (user callables, Call / Invoke, Fold / Group accumulators,
+  Match, Iter, S-rooted expressions, `Vars` — see `c06_vars_frame`) keep the property "observed". -/
+
+open Glom in
+/-- **Frame theorem for T arithmetic.**  Evaluating any T expression — item steps and arithmetic
+    operations in any number and order, with arguments that are literals, rebuilt containers or
+    nested T expressions — against any target in any heap only *appends* cells: no cell that
+    existed before the evaluation (reachable from the target or not, owned by the spec or not) is
+    written, whether the evaluation returns or raises. -/
+theorem c06_tarith_frame (steps : Steps) (tgt : Val) (h : Heap) :
+    ∃ ext, (evalAuto (.t steps) tgt h).2 = h ++ ext :=
+  evalAuto_ext (.t steps) tgt h
+
+open Glom in
+/-- … spelled out per object: every address that existed holds the same cell afterwards
+    (structure *and* identity of every object, the target's containers included). -/
+theorem c06_tarith_cells (steps : Steps) (tgt : Val) (h : Heap) (a : Nat) (ha : a < h.length) :
+    (evalAuto (.t steps) tgt h).2[a]? = h[a]? :=
+  (evalAuto_ext (.t steps) tgt h).get a ha
+
+open Glom in
+/-- **The result of T arithmetic is a new object** (or a scalar): when the expression ends with an
+    arithmetic operation its value is not an object that existed before — in particular not the
+    target's own container (`T['tags'] | {'b'}` is not `target['tags']`). -/
+theorem c06_tarith_fresh (steps : Steps) (tgt : Val) (h : Heap) (a : Nat) (h' : Heap)
+    (hend : steps.endsArith = true) (hev : evalAuto (.t steps) tgt h = (.ok (.ref a), h')) :
+    h.length ≤ a :=
+  evalAuto_fresh (.t steps) tgt h (.ref a) h' hev (by simpa [Sp.mustBeNew] using hend) a rfl
+
+open Glom in
+/-- **Frame theorem for every modelled construct**, in both modes: `_glom(target, spec, scope)`
+    (AUTO: dict / list / tuple specs, Coalesce, T) and `arg_val(target, spec, scope)` (literals
+    rebuilt, T evaluated) never write a cell that existed. -/
+theorem c06_spec_frame (sp : Sp) (tgt : Val) (h : Heap) :
+    (∃ ext, (evalAuto sp tgt h).2 = h ++ ext) ∧ (∃ ext, (evalArg sp tgt h).2 = h ++ ext) :=
+  ⟨evalAuto_ext sp tgt h, evalArg_ext sp tgt h⟩
+
+open Glom in
+/-- **Containers glom builds are new objects**: the value of a dict spec, of a list spec, of a
+    tuple spec whose last step builds one, of a Coalesce all of whose alternatives (and default)
+    build one, of a T expression ending in arithmetic (`Sp.mustBeNew`) is never an object that
+    existed before the call; in argument mode the same for every rebuilt literal (`Sp.newArg`). -/
+theorem c06_spec_fresh (sp : Sp) (tgt : Val) (h : Heap) (a : Nat) (h' : Heap) :
+    (sp.mustBeNew = true → evalAuto sp tgt h = (.ok (.ref a), h') → h.length ≤ a) ∧
+    (sp.newArg = true → evalArg sp tgt h = (.ok (.ref a), h') → h.length ≤ a) :=
+  ⟨fun hn hev => evalAuto_fresh sp tgt h (.ref a) h' hev hn a rfl,
+   fun hn hev => evalArg_fresh sp tgt h (.ref a) h' hev hn a rfl⟩
+
+open Glom in
+/-- **Any number of calls.**  After any sequence of calls (the same spec again, other specs, other
+    targets) every object that existed at the start is what it was: each call of a history starts
+    from inputs that no earlier call has touched. -/
+theorem c06_calls_frame (calls : List (Sp × Val)) (h : Heap) :
+    (∃ ext, runCalls calls h = h ++ ext) ∧ ∀ a, a < h.length → (runCalls calls h)[a]? = h[a]? :=
+  ⟨runCalls_ext calls h, fun a ha => (runCalls_ext calls h).get a ha⟩
+
+open Glom in
+/-- **What an observer sees is unchanged**: a value that denoted a tree before the calls (the
+    target, any container inside it, a container of the spec) denotes the same tree afterwards —
+    the "structure" reading of the snapshot the correspondence takes. -/
+theorem c06_view_preserved (calls : List (Sp × Val)) (h : Heap) (fuel : Nat) (v : Val) (p : PV)
+    (hv : view6 h fuel v = some p) : view6 (runCalls calls h) fuel v = some p :=
+  view6_ext (runCalls_ext calls h) fuel v p hv
+
+open Glom in
+/-- **The checker holds on the model**: for every spec, target and heap the observation of the
+    model's evaluation satisfies `checkArith` (the decidable form of the two statements above that
+    the driver evaluates on the implementation's observation). -/
+theorem c06_arith_checker (sp : Sp) (tgt : Val) (h : Heap) :
+    checkArith h sp (observe6 h.length (evalAuto sp tgt h)) = true := by
+  unfold checkArith observe6
+  simp only [Bool.and_eq_true, decide_eq_true_eq, Bool.or_eq_true, Bool.not_eq_true']
+  refine ⟨(evalAuto_ext sp tgt h).take, ?_⟩
+  cases hn : sp.mustBeNew with
+  | false => exact Or.inl rfl
+  | true =>
+    right
+    rcases hev : evalAuto sp tgt h with ⟨r, h'⟩
+    cases r with
+    | error e => rfl
+    | ok v =>
+      cases v with
+      | ref a =>
+        have := evalAuto_fresh sp tgt h (.ref a) h' hev hn a rfl
+        simp only [decide_eq_false_iff_not, Nat.not_lt]
+        exact this
+      | _ => rfl
+
 /-! ### non-vacuity: a concrete strategy, a warm and an overflowing cache -/
 
 private def parse0 (star : Bool) (_t : String) : Bool := star
@@ -371,5 +586,84 @@ example : (evalVars [[("floor", 0)]] 0 [] [.read "last", .write "last" 1, .read 
 example : (evalVars (evalVars [[("floor", 0)]] 0 [] [.write "last" 1]).1 0 [] [.read "last", .read "floor"]).2
     = [none, some 0] := by decide
 example : ((evalVars [[("floor", 0)]] 0 [("d", 5)] [.write "floor" 9]).1).getD 0 [] = [("floor", 0)] := by decide
+
+
+/-! the heap model: `{'tags': {'a'}, 'xs': [1], 'ba': bytearray(b'\x01')}` with the spec's own set
+    `{'b'}` at address 4.  `T['tags'] | {'b'}`: a new set at a new address, the target's set is
+    what it was; the in-place operator (`operator.ior`, `cur |= arg` — NOT what glom does) writes
+    the target's cell and returns the target's own object: the frame theorem is about the code
+    that exists, and `checkArith` tells the two apart -/
+
+open Glom in
+private def h0 : Heap :=
+  [.dict "dict" [(.str "tags", .ref 1), (.str "xs", .ref 2), (.str "ba", .ref 3)],
+   .set "set" [.str "a"], .list "list" [.int 1], .list "bytearray" [.int 1], .set "set" [.str "b"]]
+
+open Glom in
+private def orSpec : Steps := .cons .item (.lit (.str "tags")) (.cons (.bin .bor) (.lit (.ref 4)) .nil)
+
+open Glom in
+example : evalAuto (.t orSpec) (.ref 0) h0 = (.ok (.ref 5), h0 ++ [.set "set" [.str "a", .str "b"]]) := by decide
+
+open Glom in
+example : orSpec.endsArith = true ∧ checkArith h0 (.t orSpec) (observe6 h0.length (evalAuto (.t orSpec) (.ref 0) h0)) = true := by
+  decide
+
+open Glom in
+/-- the in-place variant breaks both halves of the checker on this input -/
+theorem c06_inplace_counterexample :
+    (aBinInPlace .bor h0 (.ref 1) (.ref 4)).2 ≠ h0 ∧
+    (aBinInPlace .bor h0 (.ref 1) (.ref 4)).1 = .ok (.ref 1) ∧
+    checkArith h0 (.t orSpec) (observe6 h0.length (guard6 (aBinInPlace .bor h0 (.ref 1) (.ref 4)))) = false := by
+  decide
+
+open Glom in
+/-- `T['xs'] + T['xs']`, `T['ba'] * 2`, `[T['xs'] + [2]]` in argument position, a dict spec, a list
+    spec over the target's list: new objects, old cells untouched -/
+example : (evalAuto (.t (.cons .item (.lit (.str "xs")) (.cons (.bin .add)
+      (.t (.cons .item (.lit (.str "xs")) .nil)) .nil))) (.ref 0) h0) =
+    (.ok (.ref 5), h0 ++ [.list "list" [.int 1, .int 1]]) := by decide
+
+open Glom in
+example : (evalAuto (.t (.cons .item (.lit (.str "ba")) (.cons (.bin .mul) (.lit (.int 2)) .nil))) (.ref 0) h0).1 =
+    .ok (.ref 5) := by decide
+
+open Glom in
+example : (evalAuto (.dict (.cons (.lit (.str "k")) (.t (.cons .item (.lit (.str "xs")) .nil)) .nil)) (.ref 0) h0) =
+    (.ok (.ref 5), h0 ++ [.dict "dict" [(.str "k", .ref 2)]]) := by decide
+
+open Glom in
+/-- a failing step is a PathAccessError and leaves the heap as it is; Coalesce then takes the default,
+    rebuilt (`arg_val`): a new list -/
+example : (evalAuto (.coalesce (.cons (.t (.cons .item (.lit (.str "zz")) .nil)) .nil) true
+      (.seq .list (.cons (.lit (.int 0)) .nil))) (.ref 0) h0) = (.ok (.ref 5), h0 ++ [.list "list" [.int 0]]) := by
+  decide
+
+open Glom in
+/-- `mustBeNew` is needed for the second half: `T['tags']` alone returns the target's own set -/
+example : (evalAuto (.t (.cons .item (.lit (.str "tags")) .nil)) (.ref 0) h0).1 = .ok (.ref 1) := by decide
+
+/-! registry: `exact=True` registers the type itself and nothing else; an ABC registered after a
+    lookup of its virtual subclass; without "not exact" the base registration is not inherited -/
+
+private def reg2 : TReg :=
+  { mro := [("Child", ["Child", "Base", "object"]), ("Base", ["Base", "object"]), ("Bag", ["Bag", "object"])],
+    virt := [("Bag", ["Sized"]), ("Child", ["Sized"])], nodefault := [("Bag", "keys")] }
+
+example : (reg2.register "Base" [("get", "g")] true).compute ("Base", "get") = some "g" := by decide
+example : (reg2.register "Base" [("get", "g")] true).compute ("Child", "get") = some "default" := by decide
+example : ((reg2.register "Base" [("get", "g0")]).register "Base" [("get", "g")] true).compute ("Child", "get")
+    = some "g" := by decide
+example : (reg2.register "Sized" [("iterate", "it")]).compute ("Bag", "iterate") = some "it" := by decide
+example : (reg2.register "Sized" [("keys", "k")]).compute ("Bag", "keys") = some "k" := by decide
+example : (reg2.register "Sized" [("keys", "k")]).compute ("Child", "keys") = some "default" := by decide
+example : ((reg2.register "Base" [("get", "g")]).register "Sized" [("get", "v")]).compute ("Child", "get")
+    = some "g" := by decide
+
+example : (runHistory parse0 TReg.compute 0 { reg := fun _ => reg2 }
+    [.call (lookup1 0 "Bag" "iterate") 2, .register 0 (fun r => r.register "Sized" [("iterate", "it")]),
+     .call (lookup1 0 "Bag" "iterate") 2, .register 0 (fun r => r.register "Bag" [("iterate", "own")] true),
+     .call (lookup1 0 "Bag" "iterate") 2]).1 =
+    [some (some "default"), some (some "it"), some (some "own")] := by decide
 
 end Glom.Props.C06
